@@ -21,7 +21,7 @@ RULE = ('generated specs whose routes take struct arguments with inherited, defa
 ASSUMPTIONS = ['Route arguments are structs, unions or Void (the statement\'s domain); the _to_file variants '
                'of download routes are not judged.']
 
-C14_CFG = dict(omitted=False, schema='client', max_ns=3, max_types=6, max_routes=4, examples=False,
+C14_CFG = dict(alias_tag_defaults=True, omitted=False, schema='client', max_ns=3, max_types=6, max_routes=4, examples=False,
                route_io_any=False, min_types=0)
 
 
